@@ -11,10 +11,12 @@
 #include <set>
 
 #include "gen_recorder.h"
+#include "genstream.h"
 #include "icase.h"
 #include "optable.h"
 #include "parser.h"
 #include "teakra/disassembler.h"
+#include "test.h"
 #include "vf.h"
 
 namespace {
@@ -278,7 +280,34 @@ vf::Result sub_O6(uint16_t w, uint16_t x, uint32_t pc, uint64_t seed) {
     return vf::Result::pass();
 }
 
+// generator leg: the project's own test generator sees the same form -- a vector carries a second program word exactly for the
+// opcodes every other consumer calls two-word (its harness writes that word right behind the opcode), and never emits an opcode
+// the table does not define
+vf::Result sub_gen(const std::vector<uint8_t>& bytes) {
+    TestCase tc;
+    if (bytes.size() != sizeof tc)
+        return vf::Result::pass();
+    std::memcpy(&tc, bytes.data(), sizeof tc);
+    const optable::Info& i = optable::info(tc.opcode);
+    if (i.entry < 0)
+        return vf::Result::fail("C02:gen:undefined", "the test generator emitted the undefined word " + vf::hex(tc.opcode));
+    if (!i.expanded && tc.expand != 0)
+        return vf::Result::fail("C02:gen:length:" + i.name, "the test generator gives the one-word opcode " + vf::hex(tc.opcode) + " (" + i.form +
+                                                                ") a second program word " + vf::hex(tc.expand));
+    vf::klass(i.expanded ? "generator vectors of two-word forms" : "generator vectors of one-word forms");
+    return vf::Result::pass();
+}
+
 vf::Result run_body(const std::string& body) {
+    {
+        auto t0 = vf::split_ws(vf::lines(body).empty() ? "" : vf::lines(body)[0]);
+        if (t0.size() >= 2 && t0[0] == "gen") {
+            std::vector<uint8_t> bytes;
+            for (size_t k = 0; k + 1 < t0[1].size(); k += 2)
+                bytes.push_back((uint8_t)std::strtoul(t0[1].substr(k, 2).c_str(), nullptr, 16));
+            return sub_gen(bytes);
+        }
+    }
     auto t = vf::split_ws(vf::lines(body).empty() ? "" : vf::lines(body)[0]);
     if (t.size() < 6)
         return vf::Result::pass();
@@ -370,6 +399,28 @@ int main(int argc, char** argv) {
         if (c.samples.size() < 6 && (wi % 9973) == (uint32_t)c.worker)
             vf::sample(vf::hex(w) + " -> entry " + std::to_string(info.entry) + " " + info.form + (info.expanded ? " +1 word" : "") +
                        " unused=" + vf::hex(um) + " text=" + Teakra::Disassembler::Do(w, 0x1234));
+    }
+    // generator leg: one full pass of the project's generator (worker 0; every worker in the thorough tier)
+    if (c.worker == 0 || thorough) {
+        vf::Result first;
+        std::vector<uint8_t> fb;
+        genstream::for_each_vector((uint32_t)vf::mix64(c.seed + 0x0202 + c.worker), sizeof(TestCase), [&](const std::vector<uint8_t>& b) {
+            vf::Result r = sub_gen(b);
+            ++c.evaluations;
+            if (!r.ok && first.ok) {
+                first = r;
+                fb = b;
+            }
+        });
+        if (!first.ok) {
+            std::string hexs;
+            char hb[4];
+            for (uint8_t xx : fb) {
+                std::snprintf(hb, sizeof hb, "%02x", xx);
+                hexs += hb;
+            }
+            vf::enum_result(prop, first, [&] { return "gen " + hexs + "\n"; }, [&] { return sub_gen(fb); });
+        }
     }
     c.current = nullptr;
     vf::klass("first words enumerated", words);
